@@ -204,9 +204,6 @@ def typeCheckLets : Ctx → List (String × TE α) → Except TErr Ctx
     else typeCheckLets ((n, e.typeOf g) :: g) rest
 end static
 
-/-- `MAX_RANGE_SIZE` (`NumericRange::call`: a larger range is the `TooLarge` error) -/
-def rangeCap : Int := 10000000
-
 /-! ### dynamic side -/
 section dynamic
 variable {α : Type} [Arith α] [ToU64 α]
